@@ -75,6 +75,17 @@ def coq_make(targets):
         return cmd, out
 
 
+def coqchk(pid):
+    """thorough tier: re-check Props/<pid>.vo and everything it depends on with the independent checker"""
+    cmd = "ulimit -v 24000000; timeout 2400 coqchk -o -silent -Q theories SKV SKV.Props.%s" % pid
+    rc, out = run(cmd, cwd=COQ, timeout=2500)
+    tail = out[-1500:]
+    want = ["Axioms: <none>", "type-in-type: <none>", "unsafe (co)fixpoints: <none>", "positivity is assumed: <none>"]
+    if rc != 0 or any(w not in tail for w in want):
+        raise Broken("coqchk -o SKV.Props.%s" % pid, tail)
+    return cmd
+
+
 def props_items(pid):
     path = os.path.join(COQ, "theories", "Props", pid + ".v")
     text = open(path).read()
